@@ -117,3 +117,41 @@ Section Any.
         intros t m Hm. destruct (Hin t m Hm) as (en' & ty & He & Hty & Hld). exists en', ty. repeat split; [now right|exact Hty|exact Hld].
   Qed.
 End Any.
+
+(* uncache_tasks(cached_tasks(types)): deleting the keys of what was listed removes exactly the entries of those types *)
+Section Uncache.
+  Variable e : env.
+  Variable dumps : json -> str.
+  Variable H : str -> str.
+  Notation save := (fun it : item => save_entry dumps H (it_ty it) (it_task it) (it_meta it)).
+  Notation key_of := (fun it : item => cache_key dumps H (tt_prefix (it_ty it)) (it_task it)).
+
+  Definition delete_keys (ks : list str) (store : list entry) : list entry :=
+    filter (fun en => negb (existsb (str_eqb (en_key en)) ks)) store.
+
+  Theorem uncache_listed_exact tys items :
+    NoDup (map key_of items) ->
+    delete_keys (map key_of (filter (wanted tys) items)) (map save items) = map save (filter (fun it => negb (wanted tys it)) items).
+  Proof.
+    intros Hnd. unfold delete_keys.
+    assert (Hmem : forall it, In it items ->
+              existsb (str_eqb (en_key (save it))) (map key_of (filter (wanted tys) items)) = wanted tys it).
+    { intros it Hin. cbn [save_entry en_key]. destruct (wanted tys it) eqn:Ew.
+      - apply existsb_exists. exists (key_of it). split; [|apply str_eqb_refl].
+        apply in_map_iff. exists it. split; [reflexivity|]. apply filter_In. auto.
+      - destruct (existsb _ _) eqn:Ex; [|reflexivity]. apply existsb_exists in Ex. destruct Ex as (k & Hk & Heq).
+        apply str_eqb_eq in Heq. apply in_map_iff in Hk. destruct Hk as (it' & Hk' & Hf). apply filter_In in Hf. destruct Hf as [Hin' Hw'].
+        assert (it = it').
+        { clear -Hnd Hin Hin' Heq Hk'. rewrite <- Hk' in Heq. clear Hk'. induction items as [|a l IH]; [destruct Hin|].
+          cbn [map] in Hnd. inversion Hnd as [|? ? Hni Hnd']; subst.
+          destruct Hin as [<-|Hin], Hin' as [<-|Hin']; [reflexivity| | |now apply IH].
+          - exfalso. apply Hni. rewrite Heq. apply in_map_iff. exists it'. auto.
+          - exfalso. apply Hni. rewrite <- Heq. apply in_map_iff. exists it. auto. }
+        subst it'. congruence. }
+    clear Hnd. revert Hmem. generalize (map key_of (filter (wanted tys) items)). intros K.
+    induction items as [|it items IH]; intros Hmem; [reflexivity|].
+    cbn [map filter]. rewrite (Hmem it (or_introl eq_refl)).
+    assert (IH' := IH (fun it0 Hi => Hmem it0 (or_intror Hi))).
+    destruct (wanted tys it); cbn [negb map]; [exact IH'|f_equal; exact IH'].
+  Qed.
+End Uncache.
